@@ -155,8 +155,8 @@ var plans = map[string]*plan{
 		Quick:          []batchSpec{{Test: "TestC10", N: 8, Timeout: 15 * m}},
 		Thorough:       []batchSpec{{Test: "TestC10", N: 16, Timeout: 60 * m}},
 		EvalStats:      []string{"c10.connects"},
-		Floors:         map[string]int64{"c10.histories": 1500, "c10.connects": 8000, "c10.probes": 100000, "classes": 12},
-		FloorsThorough: map[string]int64{"c10.histories": 45000, "classes": 12},
+		Floors:         map[string]int64{"c10.histories": 1500, "c10.connects": 8000, "c10.probes": 100000, "classes": 8},
+		FloorsThorough: map[string]int64{"c10.histories": 45000, "classes": 8},
 		Assumptions:    []string{"quiescence by synctest.Wait()", "takeover of a live client id is outside the statement and not generated"},
 	},
 	"C11": {
@@ -185,7 +185,7 @@ var plans = map[string]*plan{
 		Quick:          []batchSpec{{Test: "TestC02Broker", N: 8, Timeout: 15 * m}},
 		Thorough:       []batchSpec{{Test: "TestC02Broker", N: 16, Timeout: 60 * m}},
 		EvalStats:      []string{"c02.scripts"},
-		Floors:         map[string]int64{"c02.scripts": 8000, "c02.steps": 50000, "classes": 5000},
+		Floors:         map[string]int64{"c02.scripts": 8000, "c02.steps": 50000, "classes": 3500},
 		FloorsThorough: map[string]int64{"c02.scripts": 300000, "classes": 100000},
 		Assumptions:    []string{"quiescence by synctest.Wait()", "the client role of the property is checked by the scripted-peer workload (TestC02Client) where built"},
 	},
